@@ -111,6 +111,18 @@ class CallMixin:
         if isinstance(spec, Ext):
             term = self.to_val(fn) if fn.k != "py" or isinstance(fn.r, (PyFunc, PyClass)) else None
             return self.ext_call(spec, term, args, kwargs, n)
+        if spec == "builtin:copy.copy":
+            # copy.copy(x) of a plain object (T-PY): a NEW object of the same class whose
+            # attribute row is a copy of x's row (the attribute values themselves are shared)
+            src = self.to_val(args[0])
+            self.require(Val.is_ref(src), "TypeError", "copy.copy of a non-object is not modelled")
+            sa = Val.a(src)
+            a = self.alloc(cls_term=cls_of(sa))
+            h = self.heap
+            h = h.with_array("fld", z3.Store(h.cur["fld"], a, z3.Select(h.cur["fld"], sa)))
+            h = h.with_array("has", z3.Store(h.cur["has"], a, z3.Select(h.cur["has"], sa)))
+            self.heap = h
+            return TV("val", mk_ref(a), args[0].hint if args[0].k == "val" else "obj")
         if isinstance(spec, str) and spec.split(".")[0] in ("list", "dict", "set"):
             # the contract says the receiver is a list/dict/set here; that is a
             # proof obligation at this call site, then the primitive applies
@@ -307,8 +319,15 @@ class CallMixin:
                 self.assume_all(side)
                 self.oblige("CALL", f"{ext.name}.pre.{lab or i}@{ev['line']}", t, text, prop)
         protect = []
-        for spec_text in list(ext.protect) + list(self.unit.ext_protect if self.unit else []):
+        for spec_text in list(ext.protect):
             protect.extend(self.eval_locs(spec_text, ev))
+        for spec_text in list(self.unit.ext_protect if self.unit else []):
+            try:
+                protect.extend(self.eval_locs(spec_text, ev))
+            except Unsupported as e:
+                # a unit-wide protection that names a local not bound yet protects nothing yet
+                if "unresolved name" not in str(e):
+                    raise
         if not ext.pure:
             self.havoc_heap(protect, ext.modifies, ev, tag="X")
         outcomes = ["ret"]
@@ -330,7 +349,8 @@ class CallMixin:
                 env["result"] = tv
                 if callee_term is not None:
                     env["callee"] = TV("val", callee_term)
-                t, side = self.spec(cl, env)
+                # old(...) in an external's ensures is the state just before that call
+                t, side = self.spec(cl, env, old_heap=ev["heap_before"])
                 self.assume_all(side)
                 self.assume(t)
             return tv
